@@ -34,7 +34,7 @@ MANIFEST = dict(
 )
 
 CASE_MS = 5000
-PAREN_KEY = "UNASSIGNED"      # exponential parse time in '(' nesting; the id is assigned by the maintainer of known_findings.json
+PAREN_KEY = "F77"             # exponential parse time in '(' nesting (known finding, id assigned by main)
 PAREN_SIG_DEPTH = 14
 
 
@@ -180,7 +180,7 @@ def run(ctx):
     for name, f in shapes.items():
         for d in (1, 2, 4, 6, 8):
             cases.append(("paren-shallow", name, f(d), None))
-    nmut = ctx.n(9000, 150000)
+    nmut = ctx.n(7000, 150000)
     for k, o, t in c18gen.generate(rng, seeds, nmut):
         cases.append((k, o, t, None))
     # determinism: a sample is run a second time (it lands in another shard / process)
@@ -364,8 +364,6 @@ def model_layer(ctx, ok):
     check that the REAL functions terminate on the same graphs with the model's answers."""
     from vplib.props import c09
     cov = {}
-    if not os.path.exists(os.path.join(VERIF, "coq", "theories", "extract", "ExtractFront.v")):
-        return cov
     drv = ctx.driver("front")
     qt = ctx.harness("qv_types")
     if not drv or not qt:
@@ -399,9 +397,11 @@ def model_layer(ctx, ok):
     real = c09.run_resilient(ctx, qt, lines)
     worst = {"rel": (0, 0, None), "narrow": (0, 0, None)}
     over_bound = []
+    narrow_over = 0
     disagreements = 0
     agrees = 0
-    hist_n = {}
+    rel_queries = narrow_queries = nontopo = 0
+    hist_n, hist_d = {}, {}
     for line, p, m, r in zip(lines, profs, mout, real):
         pm = c09.parse_out(m)
         if not pm or "n" not in pm:
@@ -409,15 +409,25 @@ def model_layer(ctx, ok):
             continue
         nn = int(pm["n"][0])
         hist_n[min(nn // 5 * 5, 40)] = hist_n.get(min(nn // 5 * 5, 40), 0) + 1
-        for kind, key_d, key_b in (("rel", "reldepths", "relbound"), ("narrow", "narrowdepths", "narrowbound")):
-            bound = int(pm[key_b][0])
-            for d in pm.get(key_d, []):
-                if d == "over":
-                    over_bound.append((line, m, kind))
-                    continue
-                d = int(d)
-                if d > worst[kind][0]:
-                    worst[kind] = (d, bound, line)
+        if pm["topo"][0] != "1":
+            nontopo += 1        # outside the theorem's hypothesis (never produced by the generators)
+        for d, bound in pm.get("reldepths", []):
+            rel_queries += 1
+            if d == "over":
+                if pm["topo"][0] == "1":
+                    over_bound.append((line, m, "rel"))
+                continue
+            d, bound = int(d), int(bound)
+            hist_d[min(d // 4 * 4, 40)] = hist_d.get(min(d // 4 * 4, 40), 0) + 1
+            if d > worst["rel"][0]:
+                worst["rel"] = (d, bound, line)
+        for d, bound in pm.get("narrowdepths", []):
+            narrow_queries += 1
+            if d == "over" or int(d) > int(bound):
+                narrow_over += 1
+                continue
+            if int(d) > worst["narrow"][0]:
+                worst["narrow"] = (int(d), int(bound), line)
         # the real functions terminated (no crash) and gave the model's answers at the proved fuel
         pr = c09.parse_out(r)
         if r == "(crash)" or not pr or "rs" not in pr:
@@ -440,7 +450,11 @@ def model_layer(ctx, ok):
         "registry_sizes_hist": {str(k): v for k, v in sorted(hist_n.items())},
         "max_model_recursion_depth_check_rel": worst["rel"][0], "bound_at_that_registry": worst["rel"][1],
         "worst_case_check_rel": worst["rel"][2],
-        "max_model_recursion_depth_narrow": worst["narrow"][0], "narrow_bound_at_that_registry": worst["narrow"][1],
+        "check_rel_queries_measured": rel_queries, "check_rel_depth_hist": {str(k): v for k, v in sorted(hist_d.items())},
+        "max_model_recursion_depth_narrow": worst["narrow"][0], "narrow_candidate_bound_2n+2_at_that_registry": worst["narrow"][1],
+        "narrow_queries_measured": narrow_queries, "narrow_depth_over_candidate_bound": narrow_over,
+        "narrow_note": "intersect_types / compute_complement: depth is MEASURED only (no theorem); contains_cycle has a theorem",
+        "registries_outside_topo_hypothesis": nontopo,
         "depth_over_bound": len(over_bound), "registries_real_agrees": agrees, "disagreements": disagreements,
     })
     return cov
